@@ -460,6 +460,9 @@ def work_multisets(item, rec):
             rec.case(base + ("unclear",), "unclear", nontrivial=False)
             rec.add("unclear", [str(e)])
             continue
+        if u["having"] != "none":
+            for verdict in exp["kept"].values():
+                rec.count("having_groups_kept" if verdict is True else ("having_groups_dropped_condition_false" if verdict is False else "having_groups_dropped_condition_null"))
         # cases: one per multiset
         bad = {}
         for kind, key, _ in diffs:
@@ -521,7 +524,7 @@ def work_having_shapes(item, rec):
         u = {"op": op, "gkind": "group-by", "form": form, "having": hname, "flavour": flavour, "stmt": stmt}
         res = run_batch([("DS_r", R.render(stmt), "DS_1")], [DS("DS_1", comps, rows)], rec)["DS_r"]
         key = (op, "group-by", form, hname, flavour, "having-shape/" + cls)
-        types = "Integer+Number" if flavour == "duo" else flavour
+        types = "Integer+Number"                           # the shapes do not depend on the measure type
         if isinstance(res, tuple):
             rec.case(key, res[1])
             record_violation(rec, ("having", "group-by", form, hname, types, cls, res[1]), u, comps, rows[:3], res[3])
@@ -750,6 +753,9 @@ class Check:
         for g in G_ALL:
             if not any(k[1] == g for k in rec.keys):
                 rec.tool_error("grouping kind never exercised: %s" % g)
+        for c in ("having_groups_kept", "having_groups_dropped_condition_false", "having_groups_dropped_condition_null"):
+            if not rec.counters.get(c):
+                rec.tool_error("having never exercised: %s = 0" % c)
         for name, vals in sorted(rec.sets.items()):
             rec.note("%s: %s" % (name, "; ".join(sorted(vals))[:600]))
         return {"exhaustive": True, "traces_validated_against_impl": len(ok), "work_items": len(items),
